@@ -236,6 +236,78 @@ func extractC18(f *facts) {
 	}
 	f.def("c18ResolverAddressBody", "List Nat", leanBytes(addrBody))
 
+	// --- the periodic refresh of the DNS cache
+	refreshCall := ""
+	if fd := funcDecl(file, "", "DNSCaching"); fd != nil {
+		ast.Inspect(fd, func(n ast.Node) bool {
+			if ce, ok := n.(*ast.CallExpr); ok {
+				if se, ok := ce.Fun.(*ast.SelectorExpr); ok && strings.HasPrefix(se.Sel.Name, "Refresh") {
+					refreshCall = c18Text(f.fset, ce)
+				}
+			}
+			return true
+		})
+	}
+	f.def("c18DnsRefreshCall", "List Nat", leanBytes(refreshCall))
+
+	// --- every option that assigns the transport's dial function (or the transport itself), and
+	// whether it type-asserts the transport with or without the `ok` form
+	var dialAssigns, asserts []string
+	if file != nil {
+		for _, d := range file.Decls {
+			fd, ok := d.(*ast.FuncDecl)
+			if !ok || fd.Recv != nil || fd.Body == nil {
+				continue
+			}
+			var walk func(n ast.Node, guard string)
+			walk = func(n ast.Node, guard string) {
+				ast.Inspect(n, func(m ast.Node) bool {
+					switch x := m.(type) {
+					case *ast.IfStmt:
+						g := c18Text(f.fset, x.Cond)
+						if x.Init != nil {
+							walk(x.Init, guard)
+						}
+						walk(x.Body, g)
+						if x.Else != nil {
+							walk(x.Else, "else of "+g)
+						}
+						return false
+					case *ast.AssignStmt:
+						if len(x.Rhs) == 1 {
+							if _, ok := x.Rhs[0].(*ast.TypeAssertExpr); ok && strings.Contains(c18Text(f.fset, x.Rhs[0]), "Transport") {
+								kind := "unchecked"
+								if len(x.Lhs) == 2 {
+									kind = "checked"
+								}
+								asserts = append(asserts, fd.Name.Name+": "+kind)
+							}
+						}
+						if len(x.Lhs) == 1 && len(x.Rhs) == 1 {
+							if se, ok := x.Lhs[0].(*ast.SelectorExpr); ok && (se.Sel.Name == "DialContext" || se.Sel.Name == "Transport") {
+								rhs := c18Text(f.fset, x.Rhs[0])
+								if _, ok := x.Rhs[0].(*ast.FuncLit); ok {
+									rhs = "func"
+								} else if i := strings.Index(rhs, "{"); i > 0 {
+									rhs = rhs[:i]
+								}
+								g := ""
+								if guard != "" {
+									g = " [if " + guard + "]"
+								}
+								dialAssigns = append(dialAssigns, fd.Name.Name+g+": "+c18Text(f.fset, x.Lhs[0])+" = "+rhs)
+							}
+						}
+					}
+					return true
+				})
+			}
+			walk(fd.Body, "")
+		}
+	}
+	f.def("c18DialAssignments", "List (List Nat)", leanBytesList(dialAssigns))
+	f.def("c18TransportAssertions", "List (List Nat)", leanBytesList(asserts))
+
 	// --- the command: order of the dial-related options in the NewAttacker call
 	afile := f.parse("attack.go")
 	var order []string
